@@ -196,6 +196,16 @@ def run_geometry(R, g, labels):
     exp = expected_model(m, scale)
     f1, f2, f3 = (os.path.join(R.tmp, n) for n in ('a.dat', 'b.dat', 'c.dat'))
     with R.lib('write'): g.write(f1)
+    # the geometry the caller still holds is the one that was written: writing does not alter it, and writing it
+    # again gives the same file (this is what "the same" is measured against after the call)
+    m_after = geo.extract(g)
+    if m_after != m:
+        k = next((k for k in m if m_after.get(k) != m[k]), '?')
+        R.fail('write:alters-geometry:' + k, 'after write() the geometry object differs from what it was before (%s)' % k)
+    f4 = os.path.join(R.tmp, 'a2.dat')
+    with R.lib('write-again'): g.write(f4)
+    if open(f1, 'rb').read() != open(f4, 'rb').read():
+        R.fail('write:second-file-differs', 'the same geometry object written twice gives two different files')
     with R.lib('read'): g2 = mulgrids.mulgrid(f1)
     compare(R, 'roundtrip', geo.extract(g2), exp, size)
     with R.lib('rewrite'): g2.write(f2)
